@@ -144,12 +144,19 @@ structure TextStages where
   scan : String → Option File
   roundtrip : ∀ f : File, (∀ l ∈ f.body, l ≠ none) → scan (print f) = some f
 
-/-- the text-level statement, given the text stages -/
-theorem load_save_restores_text (T : TextStages) (app : App) (hwf : app.WF) (hcov : app.MetaCovers)
-    (hrank : MetaRanked app.apropos) (rtoscVer appVer : Nat × Nat × Nat)
-    (hrv : verOk rtoscVer = true) (hav : verOk appVer = true) (s : State) (hs : app.Reachable s) :
-    (T.scan (T.print (app.saveFile rtoscVer appVer s))).map (fun f => app.loadFile f app.init) =
-      some (.ok s (app.save s).length) := by
+/-- The full statement at the level of file *text*, for given print/scan stages (kept
+    visible; `load_save_restores` is its abstract-line form, `…_partial` derives it from the
+    round-trip of the text stages). -/
+def load_save_restores_statement (print : File → String) (scan : String → Option File) : Prop :=
+  ∀ (app : App), app.WF → app.MetaCovers → MetaRanked app.apropos →
+  ∀ (rtoscVer appVer : Nat × Nat × Nat), verOk rtoscVer = true → verOk appVer = true →
+  ∀ (s : State), app.Reachable s →
+    (scan (print (app.saveFile rtoscVer appVer s))).map (fun f => app.loadFile f app.init) =
+      some (.ok s (app.save s).length)
+
+/-- the text-level statement holds for every pair of text stages with the round-trip property -/
+theorem load_save_restores_partial (T : TextStages) : load_save_restores_statement T.print T.scan := by
+  intro app hwf hcov hrank rtoscVer appVer hrv hav s hs
   rw [T.roundtrip _ (by intro l hl; simp [App.saveFile] at hl; obtain ⟨x, _, rfl⟩ := hl; simp)]
   simp only [Option.map_some]
   rw [load_save_restores app hwf hcov hrank rtoscVer appVer hrv hav s hs]
